@@ -10,12 +10,11 @@
    DStride-th selected state.                                                                                *)
 EXTENDS EcCurves, Json, Integers
 CONSTANTS CurveNames, Bases, KFrom, KTo, Stride, DStride
-VARIABLES c, bs, kk, cur, ext      \* (not s, k, P: TLC start-up takes 30 s when variables share names with
+VARIABLES c, bs, bp, kk, cur, ext      \* (not s, k, P: TLC start-up takes 30 s when variables share names with
                                    \*  parameters of the recursive operators of EcGroup - measured, not understood)
-vars == << c, bs, kk, cur, ext >>
+vars == << c, bs, bp, kk, cur, ext >>           \* bp = bs*G, the base of this walk (kept in the state: computed once)
 
 KEnd(cv) == IF KTo = 0 THEN cv.n + 1 ELSE KTo
-B(cv, sv) == Mul(cv, sv, G(cv))
 Selected(sv, kv) == sv = 1 /\ kv % Stride = 0
 Deep(sv, kv) == Selected(sv, kv) /\ kv % (Stride * DStride) = 0
 None == [dbl |-> << >>, neg |-> << >>, next |-> << >>, prev |-> << >>, dbln |-> << >>]
@@ -26,21 +25,22 @@ Ext(cv, sv, kv, Q) ==
 
 Init == /\ c \in { CurveByName(nm) : nm \in CurveNames }
         /\ bs \in Bases /\ kk = KFrom
-        /\ cur = Mul(c, KFrom, B(c, bs))
+        /\ bp = Mul(c, bs, G(c))
+        /\ cur = Mul(c, KFrom, bp)
         /\ ext = Ext(c, bs, KFrom, cur)
 Step == /\ kk < KEnd(c)
         /\ kk' = kk + 1
-        /\ cur' = Add(c, cur, B(c, bs))
+        /\ cur' = Add(c, cur, bp)
         /\ ext' = Ext(c, bs, kk + 1, cur')
-        /\ UNCHANGED << c, bs >>
+        /\ UNCHANGED << c, bs, bp >>
 Next == Step
 Spec == Init /\ [][Next]_vars
 
 (* ---- checked by TLC on every state *)
 Closed  == OnCurve(c, cur) /\ (Selected(bs, kk) => OnCurve(c, ext.dbl) /\ OnCurve(c, ext.next) /\ OnCurve(c, ext.prev))
-Cycle   == /\ (cur = Inf <=> (kk * bs) % c.n = 0)                         \* ord(B) = n: no early return to Inf  (bs < n)
-           /\ (kk = c.n + 1 => cur = B(c, bs))
-Ladder  == (kk % 64 = 0 \/ kk >= c.n - 1) => cur = Mul(c, kk, B(c, bs))        \* the walk is the double-and-add multiple
+Cycle   == /\ (cur = Inf <=> MulMod(kk % c.n, bs % c.n, c.n) = 0)                         \* ord(B) = n: no early return to Inf  (bs < n)
+           /\ (kk = c.n + 1 => cur = bp)
+Ladder  == (kk % 64 = 0 \/ kk >= c.n - 1) => cur = Mul(c, kk, bp)        \* the walk is the double-and-add multiple
 Special == Deep(bs, kk) =>
            /\ Mul(c, c.n, cur) = Inf /\ Mul(c, c.n - 1, cur) = ext.neg /\ Mul(c, c.n + 1, cur) = cur
            /\ \A e \in 1..(c.m + 1) : ext.dbln[e] = Mul(c, Pow2(e), cur)
@@ -48,6 +48,6 @@ DblOk   == Selected(bs, kk) =>
            /\ ext.dbl = Add(c, cur, cur) /\ Add(c, cur, ext.neg) = Inf
            /\ Add(c, ext.prev, G(c)) = cur /\ Sub(c, ext.next, G(c)) = cur
 
-Emit == PrintT(ToJson([gen |-> "walk", cn |-> c.name, curve |-> (IF kk = KFrom THEN c ELSE << >>), s |-> bs, base |-> B(c, bs), k |-> kk, P |-> cur,
+Emit == PrintT(ToJson([gen |-> "walk", cn |-> c.name, curve |-> (IF kk = KFrom THEN c ELSE << >>), s |-> bs, base |-> bp, k |-> kk, P |-> cur,
                        sel |-> Selected(bs, kk), ext |-> ext]))
 =============================================================================
